@@ -2,7 +2,7 @@ CONSTANTS
  Alphabet <- MCAlphabet
  RootKinds <- MCRoots
  MaxRoots = 6
- MaxNodes = 5
+ MaxNodes = 4
  MaxDepth = 3
  MinDump = 0
  Dump = TRUE
